@@ -23,7 +23,11 @@ META = {
             "108 of 600) is reserved for the partial views row_view<I,J,K>, column_view<I,J,K>, submatrix_view<I,J,R,C> (and the "
             "full row / column views, tvector slices; const and non-const overloads) of NON-SQUARE tmatrix<N,M>, with K = 1, an "
             "interior K and the maximal K, as element reads, destination of = += *=, destination aliased with the right-hand "
-            "side, next to another sub-view of the same matrix, and const view read into a plain object. Each program runs on fresh random "
+            "side, next to another sub-view of the same matrix, and const view read into a plain object. A second quota (49 of 128 / "
+            "147 of 600) plans `x /= s` and `x *= s` with an int literal |s| >= 2, a float scalar against a double / long double "
+            "array and a scalar of the array's own type on every destination kind with its own operator/= (tvector, tmatrix, "
+            "stensor, tensor, vector, matrix, runtime_array, View, ViewsArray and StridedCoalescedViewsArray elements, "
+            "sub-views). Each program runs on fresh random "
             "operand values per draw; the destination must equal the naive element-wise value BITWISE (same IEEE operations "
             "in the same association; only `/= s`, which the library implements as a multiplication by 1/s, gets 64 ulp), "
             "every other cell of every store must be untouched, and ASan/UBSan/assert must stay silent. Aliasing: the "
@@ -146,6 +150,23 @@ def run(ctx):
     for w in ("col3", "row3", "sub"):
         big = [i for i in sv if i["subview"]["which"] == w and i["subview"]["kmode"] != "1"]
         ctx.require(len(big) >= 3, "fewer than 3 programs exercise the partial view '%s' with K >= 2 on a non-square matrix" % w)
+    # scale quota (lib/etgen.py, scale_table): `/=` and `*=` by an int literal (|s| >= 2), by a float against a
+    # double / long double array and by a scalar of the array's type, on every destination kind that implements
+    # its own operator/=; a planned (kind, operator, scalar kind) with fewer events than one program's draws
+    # makes the run inconclusive
+    sq = [i for i in infos if "scalequota" in i]
+    ctx.cov["scale_quota_programs"] = len(sq)
+    have = {}
+    for i in sq:
+        x = i["scalequota"]
+        key = (x["kind"], x["op"], x["scalar"])
+        n = summ.get((i["api"], i["stratum"]), {}).get("n", 0)
+        have[key] = have.get(key, 0) + min(n, per * shards)
+        ctx.count("scale:%s:%s:%s" % key)
+    for g in sorted(set(tu["group"] for tu, bn in jobs)):
+        for e in etgen.scale_table(g, ctx.tier, ctx.seed):
+            ctx.require(have.get(e, 0) >= per * shards,
+                        "planned scale stratum %s %s (%s scalar) observed %d < %d events" % (e[0], e[1], e[2], have.get(e, 0), per * shards))
     for i in infos[:6]:
         ctx.sample({"program": i["statement"], "T": i["T"], "api": i["api"], "stratum": i["stratum"]}, cap=14)
     ctx.assumptions += [
